@@ -131,7 +131,7 @@ def check_events(ctx):
     for e in writes:
         fr, val = e['frame'], e['value']
         copied = fr.store == 'fresh' or fr.fresh
-        ctx.ob('R2', e['where'], norm_text(e['node']) + ' [copy]', True if copied else False, 'selected rows are copied before re-basing' if copied else
+        ctx.ob('R2', e['where'], norm_text(e['node']) + ' [copy]', True if copied else (None if fr.store is None else False), 'selected rows are copied before re-basing' if copied else
                're-basing writes into a selection of the original event table (modifies the source / SettingWithCopy)')
         off = val.bin[2] if (val is not None and val.bin is not None and val.bin[0] == '-') else None
         if off is None:
@@ -302,7 +302,8 @@ def check_jumps_split(ctx):
     for k in ('conversion_method', 'minimal_residence'):
         v = kw.get(k)
         ok = v is not None and (v.store == f'attr:Jumps.{k}' or (v.deps and any(d.endswith(f'.{k}') for d in v.deps)) or v.ty == 'func' or v.is_param)
-        ctx.ob('R3', fi, f'{k}=', True if ok else False, f'{k} of the source forwarded' if ok else
+        open_star = star is not None and (not star.kw or star.open_kw)
+        ctx.ob('R3', fi, f'{k}=', True if ok else (None if (v is None and open_star) else False), f'{k} of the source forwarded' if ok else
                f'`{k}` is not forwarded: the parts are analysed with the default setting, so jumps rejected in the whole are counted in the parts '
                f'(part counts exceed the total)')
     calls = [x for x in it.events if x['tag'] == 'call' and x['callee'] == TS and x['where'] is not None and x['where'].qualname == JS]
